@@ -163,8 +163,13 @@ the tester fills it in; only the blacklist names the matching rule's ID itself. 
 def fillId (c : Check) (raw : Raw) : Raw := if raw.id.isEmpty then { raw with id := c.id } else raw
 
 /-- the environment a check decides on -/
+def Ctx.blank : Ctx := ⟨none, none, []⟩
+
+/-- position-free view of an environment: positions erased from the visit, location context blanked -/
+def Env.blind (env : Env) : Env := { env with v := env.v.erase, ctx := Ctx.blank }
+
 def Env.forCheck (env : Env) (c : Check) : Env :=
-  if c.usesPos then env else { env with v := env.v.erase }
+  if c.usesPos then env else env.blind
 
 /-- `run_tests` for one check on one context. -/
 def runCheck (nm : NosecMap) (env : Env) (c : Check) : List Event :=
@@ -236,7 +241,9 @@ def runVisit (checks : List Check) (nm : NosecMap) (lines : List Str) (s : VStat
   match dispatch v with
   | none => []
   | some (kind, ctx) =>
-    (checksFor checks kind).flatMap (runCheck nm { v := v, st := s, ctx := ctx, lines := lines })
+    -- the file's text (`file_data`) is part of the `File` context only: node contexts do not carry it
+    let _ := lines
+    (checksFor checks kind).flatMap (runCheck nm { v := v, st := s, ctx := ctx })
 
 /-- The traversal as a fold: the state is updated by a node *before* tests run on it. -/
 def scanVisits (checks : List Check) (nm : NosecMap) (lines : List Str) : VState → List Visit → List Event
